@@ -1401,6 +1401,11 @@ vbi_decode_caption(vbi_decoder *vbi, int line, uint8_t *buf)
 		ch = &cc->channel[(cc->curr_chan & 5) + field2 * 2];
 
 		if (buf[0] == 0x80 && buf[1] == 0x80) {
+			/* A control code repeats in the next frame,
+			   after a null pair it is a new command. */
+			if (!field2)
+				cc->last[0] = 0;
+
 			if (ch->mode) {
 				if (ch->nul_ct == 2)
 					word_break(cc, ch, 1);
